@@ -4,11 +4,13 @@ CONSTANTS
   MaxTx = 2
   MaxWrites = 1
   Keys = {"k1"}
+  MaxReads = 1
 INVARIANTS
   MutualExclusion
   Serial
   NoTrace
   NeverBroken
+  FreeMeansEmpty
 PROPERTIES
   EventuallyBegins
   WaitingGetsPermit
